@@ -11,7 +11,9 @@ import (
 // Lockset monitor: a harness declares vpGuardedBy(root, mu, immutableTypeNames...).
 // Every load/store/map operation on a cell reachable from root (not through a
 // pointer to an immutable type) requires mu held: read or write for reads,
-// write for writes. A breach is reported as a violation of label "lockset".
+// write for writes; an access made while some OTHER lock is held in an adequate mode is
+// not reported (the state may be guarded by a different lock than declared). A breach
+// (no adequate lock held at all) is reported as a violation of label "lockset".
 
 type guardSpec struct {
 	root      *Value
@@ -67,12 +69,30 @@ func (e *Exec) guardHeld(g *guardSpec, write bool) bool {
 	return ls.writer || ls.readers > 0
 }
 
+// otherLockHeld: some lock other than the declared one is held in a mode adequate for the
+// access. The state may then be guarded by a different lock than the harness declared (a
+// sharded or renamed mutex): not a breach the monitor can establish.
+func (e *Exec) otherLockHeld(g *guardSpec, write bool) bool {
+	for p, ls := range e.locks {
+		if p == g.mu || ls == nil {
+			continue
+		}
+		if ls.writer && (e.cur == nil || ls.holder == e.cur.id) {
+			return true
+		}
+		if !write && ls.readers > 0 {
+			return true
+		}
+	}
+	return false
+}
+
 func (e *Exec) monitorAccess(p *Value, write bool) {
 	if len(e.guards) == 0 || e.lenient > 0 || e.spec > 0 {
 		return
 	}
 	for _, g := range e.guards {
-		if e.guardHeld(g, write) {
+		if e.guardHeld(g, write) || e.otherLockHeld(g, write) {
 			continue
 		}
 		if p == g.mu {
@@ -89,7 +109,7 @@ func (e *Exec) monitorMap(m *Map, write bool) {
 		return
 	}
 	for _, g := range e.guards {
-		if e.guardHeld(g, write) {
+		if e.guardHeld(g, write) || e.otherLockHeld(g, write) {
 			continue
 		}
 		if e.reachable(g, nil, m) {
